@@ -272,6 +272,32 @@ def gen_abort_before_first_poll(rng):
     return {"actors": actors, "msgs": msgs, "ops": ops}
 
 
+def gen_request_during_post_start(rng):
+    """A supervised child is asked to drain / stop while its post_start is still parked at a gate;
+    post_start then returns Ok: the supervisor still gets ActorStarted first and then the terminal
+    event (seeded regression C04-7: ActorStarted suppressed when the status had already moved on)."""
+    trivial = ([], ("ok",))
+    sup0 = rng.choice([None, ([("t",)] * rng.choice([0, 1]), ("ok",))])
+    n = rng.choice([2, 2, 3])
+    actors = [{"pre": trivial, "ps": trivial, "stop": ([("t",)], ("ok",)), "sup": sup0, "link": None}]
+    for i in range(1, n):
+        actors.append({"pre": ([("t",)] * rng.choice([0, 1]), ("ok",)), "ps": ([("g", i)] + [("t",)] * rng.choice([0, 1]), ("ok",)),
+                       "stop": ([("t",)] * rng.choice([0, 1]), ("ok",)), "sup": None, "link": 0})
+    msgs = {1: ([("t",)], ("ok",)), 2: trivial, 3: trivial, 4: trivial}
+    ops = [("spawn", 0), ("settle",)]
+    for i in range(1, n):
+        ops += [("spawn", i), ("settle",)]
+        if rng.random() < 0.4:
+            ops += [("send", i, rng.choice([1, 2]))]
+        ops += [rng.choice([("drain", i), ("drain", i), ("stop", i, None), ("stop", i, 10)])]
+        if rng.random() < 0.5:
+            ops += [("settle",)]
+        ops += [("open", i), ("settle",)]
+    if rng.random() < 0.5:
+        ops += [("send", 0, 1), ("settle",)]
+    return {"actors": actors, "msgs": msgs, "ops": ops}
+
+
 def gen_fail_with_pending_stop(rng):
     """A callback after pre_start fails (Err or panic) while a graceful stop / drain request for the
     same actor is already pending: the handler itself asked for the stop before failing, or an outside
@@ -772,6 +798,8 @@ def gen_local(rng, k, focus):
         sc = gen_fail_with_pending_stop(rng)
     elif k % 20 == 3:
         sc = gen_backlog_then_sup(rng)
+    elif k % 20 == 9:
+        sc = gen_request_during_post_start(rng)
     elif k % 5 < 3:
         sc = gen_scenario(rng, focus if k % 2 else "mixed", link_p=0.0)
     elif k % 5 == 3:
@@ -922,6 +950,8 @@ def run_loop_check(chk, oracle_fn, focus, what, accept=lambda o: o == "true", co
             scs.append(gen_backlog_then_sup(chk.rng))
         elif k % 40 == 19:
             scs.append(gen_abort_before_first_poll(chk.rng))
+        elif k % 40 == 29:
+            scs.append(gen_request_during_post_start(chk.rng))
         elif k % 8 == 7:
             scs.append(gen_abort_in_post_stop(chk.rng))
         elif k % 5 == 4:
